@@ -409,7 +409,8 @@ def run(ctx):
     vfiles = ["Lin/LuGenA.v", "Lin/LuGenB.v", "Lin/LuGenC.v", "Lin/LuGenD.v", "Lin/LuGen.v", "Lin/LuPivot.v",
               "Lin/LuDet3.v", "Lin/LuProofs.v", "Lin/LuNonsing.v", "Lin/LuNonsingQI.v", "Lin/LsProofs.v",
               "Lin/LsLuProofs.v", "Lin/LuDetModel.v", "Lin/LuDetAlg.v", "Lin/LuDetProofs.v", "Lin/LuRowOrderProofs.v",
-              "Lin/DivideProofs.v", "Lin/LuDetExamples.v", "Lin/QrAlg.v", "Lin/QrProofs.v", "Lin/QrTheorems.v", "Lin/QrQIProofs.v",
+              "Lin/DivideProofs.v", "Lin/LuDetExamples.v", "Lin/LuRowOrderNoTie.v", "Lin/LuRowOrderSolvers.v",
+              "Lin/LuRowOrderScale.v", "Lin/LuRowOrderExamples.v", "Lin/QrAlg.v", "Lin/QrProofs.v", "Lin/QrTheorems.v", "Lin/QrQIProofs.v", "Lin/DivideQrLs.v", "Lin/DivideQrLsQI.v",
               "Properties_C19.v"]
     vfiles = [v for v in vfiles if os.path.exists(os.path.join(vplib.COQDIR, v))]
     ok, res = ctx.coq_obligations(["Lin/LsSpec.v", "Lin/LuPartial.v", "Lin/LsLu.v", "Lin/LuQI2.v", "Lin/QrModel.v", "Lin/QrQI.v"] + vfiles)
@@ -750,6 +751,9 @@ def run(ctx):
 
     # ------------------------------------------------------------------ 3d. determinant = Laplace determinant
     det_laplace_check(ctx, exe, violation, quick)
+
+    # ------------------------------------------------------------------ 3e. magnitude sweep of every tie family
+    magnitude_sweep_check(ctx, exe, violation, quick)
 
     # ------------------------------------------------------------------ 4. least squares
     ls_check(ctx, drv, exe, run_both, violation, quick)
@@ -1228,6 +1232,232 @@ def det_laplace_check(ctx, exe, violation, quick):
                   "Coq determinant (Laplace / LU model) differs from the exact determinant on a %dx%d matrix" % (cases[k][0], cases[k][0]),
                   {"n": cases[k][0], "A": [[(str(a), str(b)) for (a, b) in row] for row in cases[k][2]],
                    "exact_det": [str(exp[k][0]), str(exp[k][1])]})
+
+
+def _fmat(m):
+    """matrix of float pairs -> harness text"""
+    return " ".join("%s %s" % (float(a).hex(), float(b).hex()) for row in m for (a, b) in row)
+
+
+def _fscale(m, s):
+    return [[(float(a) * s, float(b) * s) for (a, b) in row] for row in m]
+
+
+def magnitude_sweep_check(ctx, exe, violation, quick):
+    """Every tie family again with the inputs scaled by s in 1e-8 .. 1e8: powers of two (exact in binary64:
+    every result must be BITWISE the scale-equivariant image of the base result) and powers of ten (inputs
+    rounded: 1e-9 relative on inputs with Skeel condition <= 1e4), and identical singular / nonsingular
+    verdicts at every scale.  An absolute threshold on a determinant, a pivot or a diagonal of R anywhere in
+    the library shows up here with the input.  Laws (s > 0):
+      _vnacommon_lu(sA): same pivot rows, det = s^n det;  minverse(sA) = minverse(A)/s;
+      mldivide(sA, sB) = mldivide(A, B);  mldivide(sA, B) = mldivide(A, B)/s;  mrdivide(sB, sA) = mrdivide(B, A);
+      qrsolve(sA, sB) = qrsolve(A, B), same rank;
+      vnaconv_ztoyn(sZ) = Y/s;  ytozn(sY) = Z/s;  stozn(S, s z0) = s stozn(S, z0);  ztosn(sZ, s z0) = ztosn(Z, z0);
+      stoyn(S, s z0) = stoyn(S, z0)/s;  ytosn(Y/s, s z0) = ytosn(Y, z0);
+      vnacal_new_add_through / _add_mapped_matrix with (s a, s b): same return code and error category;
+      one-port E12 calibration with all measurements in units of s: vnacal_new_solve / vnacal_apply_m succeed and
+      return the same corrected parameter."""
+    rng = ctx.rng
+    p2 = [2.0 ** k for k in ((-27, -9, 13, 27) if quick else (-27, -20, -13, -5, -1, 3, 9, 17, 23, 27))]
+    p10 = [10.0 ** k for k in ((-8, -3, 4, 8) if quick else (-8, -6, -4, -2, -1, 1, 2, 4, 6, 8))]
+    scales = [(s, True) for s in p2] + [(s, False) for s in p10]
+    nmax = 4 if quick else 6
+    Z = (Fraction(0), Fraction(0))
+    bases = []      # (tag, n, A, singular?)
+    for n in range(1, nmax + 1):
+        for rep in range(1 if quick else 2):
+            A = gen_exact_lu(rng, n, n)
+            bases.append(("regular", n, A, False))
+        if n >= 2:
+            A = gen_exact_lu(rng, n, n)
+            r = rng.randrange(n)
+            bases.append(("zero_row", n, [([Z] * n if i == r else row) for i, row in enumerate(A)], True))
+            bases.append(("zero_col", n, [[(Z if c == r else v) for c, v in enumerate(row)] for row in A], True))
+            r2 = (r + 1) % n
+            bases.append(("dup_row", n, [(A[r] if i == r2 else row) for i, row in enumerate(A)], True))
+
+    def lines_for(tag, n, A, s):
+        """harness lines and, per line, (name, factor applied to the base x, factor applied to the base det)"""
+        Af = _fscale(A, s)
+        B = [[(Fraction(rng_b[i][k][0]), Fraction(rng_b[i][k][1])) for k in range(2)] for i in range(n)]
+        Bf, B1 = _fscale(B, s), _fscale(B, 1.0)
+        z0 = [[(50.0 * s, 0.0)] * n]
+        z0b = [[(50.0, 0.0)] * n]
+        Ainv_s = _fscale(A, 1.0 / s)
+        L = [("lu %d %s" % (n, _fmat(Af)), "lu", None, s ** n),
+             ("minverse %d %s" % (n, _fmat(Af)), "minverse", 1.0 / s, s ** n),
+             ("mldivide %d 2 %s %s" % (n, _fmat(Af), _fmat(Bf)), "mldivide(sA,sB)", 1.0, s ** n),
+             ("mldivide %d 2 %s %s" % (n, _fmat(Af), _fmat(B1)), "mldivide(sA,B)", 1.0 / s, s ** n),
+             ("mrdivide 2 %d %s %s" % (n, _fmat(_fscale([list(c) for c in zip(*B)], s)), _fmat(Af)), "mrdivide(sB,sA)", 1.0, s ** n),
+             ("qrsolve %d %d 2 %s %s" % (n, n, _fmat(Af), _fmat(Bf)), "qrsolve(sA,sB)", 1.0, None),
+             ("ztoyn %d %s" % (n, _fmat(Af)), "vnaconv_ztoyn", 1.0 / s, None),
+             ("ytozn %d %s" % (n, _fmat(Af)), "vnaconv_ytozn", 1.0 / s, None),
+             ("ztosn %d %s %s" % (n, _fmat(Af), _fmat(z0)), "vnaconv_ztosn", 1.0, None),
+             ("ytosn %d %s %s" % (n, _fmat(Ainv_s), _fmat(z0)), "vnaconv_ytosn", 1.0, None)]
+        if tag == "regular":
+            # S matrices: A scaled into the unit disc so that I - S is regular
+            mx = max(abs(float(a)) + abs(float(b)) for row in A for (a, b) in row) * n * 2.0
+            Sm = _fscale(A, 1.0 / mx)
+            L.append(("stozn %d %s %s" % (n, _fmat(Sm), _fmat(z0)), "vnaconv_stozn", s, None))
+            L.append(("stoyn %d %s %s" % (n, _fmat(Sm), _fmat(z0)), "vnaconv_stoyn", 1.0 / s, None))
+        L.append(("add_an %d %s %s" % (n, _fmat(Af), _fmat(_fscale(A, s * 0.5))), "vnacal_new_add_mapped_matrix", None, None))
+        return L
+
+    all_lines, index = [], []
+    for bi, (tag, n, A, sing) in enumerate(bases):
+        rng_b = [[(rng.randint(-8, 8), rng.randint(-8, 8)) for _ in range(2)] for _ in range(n)]
+        for (s, exact) in [(1.0, True)] + scales:
+            for (ln, name, fx, fd) in lines_for(tag, n, A, s):
+                all_lines.append(ln)
+                index.append((bi, s, exact, name, fx, fd))
+    rc, out, err = vplib.sh([exe], input="\n".join(all_lines) + "\n", timeout=600, env=ctx.run_env())
+    if rc != 0:
+        sig = vplib.asan_signature(err) or {"kind": "fault", "error": "exit %d" % rc, "function": None}
+        violation(sig, "lu_harness failed in the magnitude sweep: " + err[-300:], {"stderr": err[-3000:]})
+        return
+    outl = out.strip().split("\n")
+    ok_n = len(outl) == len(all_lines)
+    ctx.obligation("tie:magnitude sweep ran (%d calls, %d base inputs, %d scales)" % (len(all_lines), len(bases), len(scales)), ok_n, "")
+    if not ok_n:
+        return
+    base_out = {}
+    for (bi, s, exact, name, fx, fd), ln in zip(index, outl):
+        if s == 1.0 and (bi, name) not in base_out:
+            base_out[(bi, name)] = ln
+    bad_eq, bad_verdict = [], []
+    n_bit = n_tol = n_verdict = 0
+
+    def flagged(r, n, inmag, outfac):
+        """singular verdict of one call: determinant exactly 0 / non-finite, or non-finite / astronomically large
+        output relative to what the scale predicts, or rank < n"""
+        if "rank" in r and r["rank"] < n:
+            return True
+        if "det" in r and (r["det"] == (0.0, 0.0) or not finite(r["det"])):
+            return True
+        xs = r.get("x", [])
+        if not all(finite(v) for v in xs):
+            return True
+        big = max((cabsf(v) for v in xs), default=0.0)
+        return big >= HUGE * outfac
+
+    for (bi, s, exact, name, fx, fd), ln in zip(index, outl):
+        tag, n, A, sing = bases[bi]
+        b0 = base_out[(bi, name)]
+        if s == 1.0:
+            continue
+        ctx.count(("sweep", name, tag, n, s))
+        if name == "vnacal_new_add_mapped_matrix":
+            if not exact and tag == "dup_row":
+                continue        # rounding noise instead of a zero pivot (see must_flag below): not claimed
+            n_verdict += 1
+            if ln.strip() != b0.strip():
+                bad_verdict.append((name, tag, n, s, b0.strip(), ln.strip(), bi))
+            elif sing != ("rc=-1" in ln):
+                bad_verdict.append((name, tag, n, s, "singular=%s" % sing, ln.strip(), bi))
+            continue
+        r0, r1 = parse_c_line(b0), parse_c_line(ln)
+        # magnitude the outputs are expected to have: base output factor (1 for base)
+        f0 = flagged(r0, n, 1.0, 1.0 if name not in ("vnaconv_stozn",) else 50.0)
+        f1 = flagged(r1, n, s, (abs(fx) if fx else 1.0) * (1.0 if name not in ("vnaconv_stozn",) else 50.0))
+        n_verdict += 1
+        # duplicated rows stay duplicated under a decimal scaling, but the elimination is then no longer exact
+        # (s * (1.0 / s) need not be 1.0): rounding noise instead of a zero pivot, "numerical rank detection ...
+        # not claimed"; a zero row / zero column is exact at every scale
+        must_flag = sing and (exact or tag != "dup_row") and name in (
+            "lu", "minverse", "mldivide(sA,sB)", "mldivide(sA,B)", "mrdivide(sB,sA)", "vnaconv_ztoyn", "vnaconv_ytozn")
+        # likewise Householder QR on an exactly singular square matrix leaves rounding noise: these verdicts are
+        # compared only where the scaling is exact
+        cmp_verdict = exact or not (sing and (name == "qrsolve(sA,sB)" or tag == "dup_row"))
+        if (cmp_verdict and f0 != f1) or (must_flag and not f1):
+            bad_verdict.append((name, tag, n, s, "flagged=%s" % f0, "flagged=%s%s" % (f1, " (exactly singular input)" if must_flag else ""), bi))
+            continue
+        if sing or f0:
+            continue
+        if "piv" in r0 and r0.get("piv") != r1.get("piv") and exact:
+            bad_eq.append((name, tag, n, s, "pivot rows %s" % r0.get("piv"), "%s" % r1.get("piv"), bi))
+            continue
+        if "rank" in r0 and r0["rank"] != r1.get("rank"):
+            bad_eq.append((name, tag, n, s, "rank %s" % r0["rank"], "rank %s" % r1.get("rank"), bi))
+            continue
+        pairs = []
+        if fx is not None and "x" in r0:
+            pairs += [((a * fx, b * fx), v) for (a, b), v in zip(r0["x"], r1.get("x", []))]
+        if fd is not None and "det" in r0:
+            pairs.append(((r0["det"][0] * fd, r0["det"][1] * fd), r1.get("det", (float("nan"),) * 2)))
+        if exact:
+            n_bit += 1
+            if any(e != v for e, v in pairs):
+                e, v = next((e, v) for e, v in pairs if e != v)
+                bad_eq.append((name, tag, n, s, "expected %r (bitwise image of the base result)" % (e,), "%r" % (v,), bi))
+        else:
+            if skeel_cond_float(A, n) > 1e4:
+                continue
+            n_tol += 1
+            mag = max((cabsf(e) for e, v in pairs), default=0.0)
+            worst = max((cabsf((e[0] - v[0], e[1] - v[1])) for e, v in pairs), default=0.0)
+            if not (worst <= 1e-9 * mag):
+                bad_eq.append((name, tag, n, s, "within 1e-9 of the scaled base result", "off by %.3g (relative)" % (worst / mag if mag else worst), bi))
+    ctx.obligation("tie:results are scale-equivariant under input scaling 1e-8..1e8 (%d bitwise for powers of two, %d within 1e-9 for powers of ten)"
+                   % (n_bit, n_tol), not bad_eq,
+                   "; ".join("%s %s n=%d s=%g: %s, got %s" % b[:6] for b in bad_eq[:3]))
+    ctx.obligation("tie:singular / nonsingular verdicts identical at every input magnitude (%d calls)" % n_verdict, not bad_verdict,
+                   "; ".join("%s %s n=%d s=%g: base %s, scaled %s" % b[:6] for b in bad_verdict[:3]))
+    ctx.extra["magnitude_sweep"] = {"calls": len(all_lines), "bitwise_comparisons": n_bit, "tolerance_comparisons": n_tol,
+                                     "verdict_comparisons": n_verdict, "scales": [sc for sc, _ in scales]}
+    for kind, lst in (("scale-equivariance", bad_eq), ("scale-verdict", bad_verdict)):
+        for (name, tag, n, s, a, b, bi) in lst[:1]:
+            violation({"kind": kind, "function": name},
+                      "%s on a %s %dx%d input scaled by %g: %s, observed %s" % (name, tag, n, n, s, a, b),
+                      {"function": name, "n": n, "kind": tag, "scale": s,
+                       "A (unscaled)": [[(str(x), str(y)) for (x, y) in row] for row in bases[bi][2]], "base": a, "scaled": b})
+    ctx.traces_validated += len(all_lines)
+
+    # solve / apply through the public API: one-port E12 calibration, every measurement in units of s
+    qexe = ctx.build_harness("qr_harness", san=True)
+    cals = []
+    for _ in range(2 if quick else 6):
+        def small():
+            return (rng.randint(-8, 8) / 64.0, rng.randint(-8, 8) / 64.0)
+        e00, e11 = small(), small()
+        e10e01 = (1.0 + rng.randint(-8, 8) / 32.0, rng.randint(-8, 8) / 32.0)
+        stds = [(-1.0, 0.0), (1.0, 0.0), (0.0, 0.0), (0.0, 1.0)]
+        sdut = (rng.randint(-20, 20) / 32.0, rng.randint(-20, 20) / 32.0)
+        cals.append([e00, e10e01, e11] + stds + [sdut])
+    clines, cidx = [], []
+    for ci, c in enumerate(cals):
+        for (s, exact) in [(1.0, True)] + scales:
+            clines.append("cal1k %s %s" % (float(s).hex(), " ".join("%s %s" % (a.hex(), b.hex()) for (a, b) in c)))
+            cidx.append((ci, s))
+    rc, out, err = vplib.sh([qexe], input="\n".join(clines) + "\n", timeout=300, env=ctx.run_env())
+    if rc != 0:
+        sig = vplib.asan_signature(err) or {"kind": "fault", "error": "exit %d" % rc, "function": None}
+        violation(sig, "qr_harness failed in the magnitude sweep: " + err[-300:], {"stderr": err[-3000:]})
+        return
+    col = out.strip().split("\n")
+    bad_cal = []
+    base = {}
+    for (ci, s), ln in zip(cidx, col):
+        okrc = ln.startswith("cal1 solve=0 apply=0 callbacks=0")
+        x = parse_c_line(ln).get("x", [(float("nan"), float("nan"))])[0]
+        if s == 1.0:
+            base[ci] = (okrc, x)
+            sd = cals[ci][-1]
+            if not okrc or not cabsf((x[0] - sd[0], x[1] - sd[1])) <= 1e-9:
+                bad_cal.append((ci, s, "base calibration", ln.strip()))
+            continue
+        ctx.count(("sweep-cal1", ci, s))
+        b_ok, bx = base[ci]
+        if okrc != b_ok or (okrc and not cabsf((x[0] - bx[0], x[1] - bx[1])) <= 1e-9):
+            bad_cal.append((ci, s, "unit scale: %s" % (bx,), ln.strip()))
+    ctx.obligation("tie:one-port E12 solve + apply give the same corrected parameter with the measurements in units of 1e-8..1e8 (%d calls)"
+                   % len(clines), len(col) == len(clines) and not bad_cal,
+                   "; ".join("cal %d s=%g %s -> %s" % b for b in bad_cal[:3]))
+    for (ci, s, a, ln) in bad_cal[:1]:
+        violation({"kind": "scale-equivariance", "function": "vnacal_new_solve/vnacal_apply_m"},
+                  "one-port E12 calibration with every measurement in units of %g: %s; observed %s" % (s, a, ln),
+                  {"scale": s, "e00,e10e01,e11,s0..s3,sdut": [list(v) for v in cals[ci]], "observed": ln,
+                   "harness": "harness/qr_harness.c op cal1k"})
+    ctx.traces_validated += len(clines)
 
 
 def parse_luc_line(line):
